@@ -367,23 +367,25 @@ def concrete_grow_family(htu, tier):
     return None, n
 
 
-def check_bulk(chk, it, tabs, configs):
+def check_bulk(chk, it, tabs, configs, rule='R05.4', only=None):
     htu = runtime.header('le')
     harness = templates.Harness(base_flags=['-DWASM_THREADS_PTHREADS'])
     base = len(mr.FILLER)
     plan = []
     for name, imm in (('memory.copy', {'memidx1': 0, 'memidx2': 0}), ('memory.fill', {'imm0': 0}),
                       ('memory.init', {'dataidx': 7, 'memidx': 0}), ('memory.size', {'imm0': 0}), ('memory.grow', {'imm0': 0})):
+        if only is not None and name not in only:
+            continue
         row = oracle.BY_NAME[name]
         stack = mr.FILLER + row['params']
         for pretty, multiple in configs:
             tpls = [t for t in templates.extract(it, row, stack, pretty, multiple, imm=imm) if t.ok and t.parts]
             site = 'emitter/' + name
-            if not chk.expect(len(tpls) == 1, 'R05.4', '%s[p%d]:emits' % (name, pretty),
+            if not chk.expect(len(tpls) == 1, rule, '%s[p%d]:emits' % (name, pretty),
                               '%s: %d successful emitting paths' % (name, len(tpls)), site):
                 continue
             t = tpls[0]
-            chk.expect(t.stack_after == mr.FILLER + row['results'], 'R05.4', '%s[p%d]:stack' % (name, pretty),
+            chk.expect(t.stack_after == mr.FILLER + row['results'], rule, '%s[p%d]:stack' % (name, pretty),
                        'type stack after %s is %r' % (name, t.stack_after), site)
             fn = 'B_%s_p%d_m%d' % (name.replace('.', '_'), pretty, multiple)
             harness.add(fn, t.text())
@@ -415,25 +417,25 @@ def check_bulk(chk, it, tabs, configs):
                 chk.fn(r.x)
             else:
                 ok = False
-            chk.expect(ok, 'R05.4', inst + ':pages', 'memory.size template is %r, expected <new top> = the current page count of i->m0' % (e,), site)
+            chk.expect(ok, rule, inst + ':pages', 'memory.size template is %r, expected <new top> = the current page count of i->m0' % (e,), site)
             continue
         dst, call, casts = mr.parse_call_template(tu, fn)
         args = list(call.a)
         if name == 'memory.grow':
             ok = dst is not None and dst.x == mr.slot(tabs, 'i32', base) and call.x == 'wasmMemoryGrow' and \
                 mr.mem_ref_ok(args[0]) and args[1].k == 'var' and args[1].x == ops[0]
-            chk.expect(ok, 'R05.4', inst + ':call', 'memory.grow template is %r' % (call,), site)
+            chk.expect(ok, rule, inst + ':call', 'memory.grow template is %r' % (call,), site)
             continue
         if name == 'memory.copy':
             roles = [a for a in args[2:]]
             ok = call.x == 'wasmMemoryCopy' and mr.mem_ref_ok(args[0]) and mr.mem_ref_ok(args[1]) and \
                 [a.x if a.k == 'var' else None for a in roles] == ops
-            chk.expect(ok, 'R05.4', inst + ':roles',
+            chk.expect(ok, rule, inst + ':roles',
                        'memory.copy passes %r; specification: (dest = third from top, src = second, n = top) = %r' % (roles, ops), site)
         elif name == 'memory.fill':
             roles = [a for a in args[1:]]
             ok = call.x == 'wasmMemoryFill' and mr.mem_ref_ok(args[0]) and [a.x if a.k == 'var' else None for a in roles] == ops
-            chk.expect(ok, 'R05.4', inst + ':roles', 'memory.fill passes %r; specification order (dest, value, n) = %r' % (roles, ops), site)
+            chk.expect(ok, rule, inst + ':roles', 'memory.fill passes %r; specification order (dest, value, n) = %r' % (roles, ops), site)
         elif name == 'memory.init':
             # LOAD_DATA(m, o, i, s) -> load_data(&((m).data[o]), i, s)
             # ... or directly a byte copy: (void)memcpy(&((m).data[o]), i, s)
@@ -462,7 +464,7 @@ def check_bulk(chk, it, tabs, configs):
                 n = args[2]
                 v = ct.iabs(n)
                 ok = ok and v[0] == 'slice' and v[1] == ops[2]
-            chk.expect(ok, 'R05.4', inst + ':roles',
+            chk.expect(ok, rule, inst + ':roles',
                        'memory.init template %r; expected load_data(&mem.data[%s], d<seg> + %s, %s)' % (call, ops[0], ops[1], ops[2]), site)
     # runtime bodies
     def params(fn):
@@ -531,18 +533,18 @@ def check_bulk(chk, it, tabs, configs):
         if not paths and shape is None:
             shape = 'no path'
         if shape is None:
-            chk.ok('R05.4', fn + ':libc', 'every path: one %s with the specified operands (or nothing for count 0)' % libfn)
-            chk.ok('R05.4', fn + ':args')
+            chk.ok(rule, fn + ':libc', 'every path: one %s with the specified operands (or nothing for count 0)' % libfn)
+            chk.ok(rule, fn + ':args')
             continue
         if shape == 'memcpy':
-            chk.fail('R05.4', fn + ':libc', '%s performs memcpy; the specification needs an overlap-safe copy (memmove) - memcpy is undefined for '
+            chk.fail(rule, fn + ':libc', '%s performs memcpy; the specification needs an overlap-safe copy (memmove) - memcpy is undefined for '
                      'overlapping ranges' % fn, site)
             continue
         # unrecognised shape: evaluate the function on a concrete family of small operands (overlapping both ways, counts 0..17) against
         # the specification's byte-wise model.  A disagreement is a definite violation; agreement on the family decides nothing more.
         bad = concrete_bulk_family(htu, fn, pn)
         if bad:
-            chk.fail('R05.4', fn + ':bytes', '%s (%s) moves the wrong bytes: %s' % (fn, shape, bad), site)
+            chk.fail(rule, fn + ':bytes', '%s (%s) moves the wrong bytes: %s' % (fn, shape, bad), site)
             continue
         raise AnalysisBroken('%s: %s - shape not recognised; it agrees with the specification on the concrete family, which does not decide '
                              'all operands' % (fn, shape))
